@@ -10,9 +10,12 @@
 (***************************************************************************)
 EXTENDS Naturals, Sequences, FiniteSets
 
-OptionSets == {"regular96", "regular128", "recursive96", "recursive128", "weak"}
+\* parameter sets (queries, blow-up, grinding, extension, FRI folding / remainder): the four documented ones and sets that
+\* are weaker than every documented one in a single parameter (q26: one query less, g15: one grinding bit less,
+\* b4: half the blow-up) or in all of them (weak); the hash function is chosen independently of the parameter set
+OptionSets == {"regular96", "regular128", "recursive96", "recursive128", "weak", "q26", "g15", "b4"}
 TagOf(o) == CASE o = "regular96" -> "blake3_192" [] o = "regular128" -> "blake3_256"
-              [] o \in {"recursive96", "recursive128"} -> "rpo256" [] o = "weak" -> "blake3_192"
+              [] o \in {"recursive96", "recursive128"} -> "rpo256" [] OTHER -> "blake3_192"
 Accepted(tag) == CASE tag = "blake3_192" -> {"regular96"} [] tag = "blake3_256" -> {"regular128"}
                    [] tag = "rpo256" -> {"recursive96", "recursive128"} [] OTHER -> {}
 Configured(o) == CASE o \in {"regular96", "recursive96"} -> 96 [] o \in {"regular128", "recursive128"} -> 128 [] OTHER -> 0
@@ -24,21 +27,24 @@ StmtTampers == {"prog_hash", "kernel_add", "kernel_remove", "kernel_replace", "i
 ProofTampers == {"flip_byte", "truncate", "trailing_byte", "relabel_tag", "invalid_tag"}
 Tampers == StmtTampers \cup ProofTampers \cup {"none"}
 
-VARIABLES opts, viaBytes, tamper, phase, stmt, claimed, proof, verdict
-vars == <<opts, viaBytes, tamper, phase, stmt, claimed, proof, verdict>>
+VARIABLES opts, htag, viaBytes, tamper, phase, stmt, claimed, proof, verdict
+vars == <<opts, htag, viaBytes, tamper, phase, stmt, claimed, proof, verdict>>
 
-Init == /\ opts \in OptionSets /\ viaBytes \in BOOLEAN /\ tamper \in Tampers
+\* (tampering is explored on proofs made with the hash function that goes with the parameter set; every other
+\* pairing of parameter set and hash function is explored untampered)
+Init == /\ opts \in OptionSets /\ htag \in ValidTags /\ viaBytes \in BOOLEAN /\ tamper \in Tampers
+        /\ (htag = TagOf(opts) \/ tamper = "none")
         /\ phase = "start" /\ stmt = "none" /\ claimed = "none" /\ proof = [none |-> TRUE] /\ verdict = "none"
 
 Execute == /\ phase = "start" /\ phase' = "executed"
            /\ stmt' = "S" /\ claimed' = "S"
-           /\ UNCHANGED <<opts, viaBytes, tamper, proof, verdict>>
+           /\ UNCHANGED <<opts, htag, viaBytes, tamper, proof, verdict>>
 Prove == /\ phase = "executed" /\ phase' = "proved"
-         /\ proof' = [stmt |-> stmt, opts |-> opts, madeTag |-> TagOf(opts), tag |-> TagOf(opts), intact |-> TRUE, parses |-> TRUE]
-         /\ UNCHANGED <<opts, viaBytes, tamper, stmt, claimed, verdict>>
+         /\ proof' = [stmt |-> stmt, opts |-> opts, madeTag |-> htag, tag |-> htag, intact |-> TRUE, parses |-> TRUE]
+         /\ UNCHANGED <<opts, htag, viaBytes, tamper, stmt, claimed, verdict>>
 \* serialisation round trip leaves the proof unchanged
 Transport == /\ phase = "proved" /\ phase' = "transported"
-             /\ UNCHANGED <<opts, viaBytes, tamper, stmt, claimed, proof, verdict>>
+             /\ UNCHANGED <<opts, htag, viaBytes, tamper, stmt, claimed, proof, verdict>>
 Tamper == /\ phase = "transported" /\ phase' = "tampered"
           /\ IF tamper \in StmtTampers THEN claimed' = "S'" /\ proof' = proof
              ELSE IF tamper = "flip_byte" THEN proof' = [proof EXCEPT !.intact = FALSE] /\ claimed' = claimed
@@ -49,17 +55,19 @@ Tamper == /\ phase = "transported" /\ phase' = "tampered"
              ELSE IF tamper = "relabel_tag" THEN proof' = [proof EXCEPT !.tag = CHOOSE t \in ValidTags : t # proof.madeTag] /\ claimed' = claimed
              ELSE IF tamper = "invalid_tag" THEN proof' = [proof EXCEPT !.tag = "invalid", !.parses = FALSE] /\ claimed' = claimed
              ELSE proof' = proof /\ claimed' = claimed
-          /\ UNCHANGED <<opts, viaBytes, tamper, stmt, verdict>>
+          /\ UNCHANGED <<opts, htag, viaBytes, tamper, stmt, verdict>>
 Verify == /\ phase = "tampered" /\ phase' = "verified"
           /\ LET ok == /\ proof.parses /\ proof.intact /\ proof.tag = proof.madeTag
                        /\ proof.stmt = claimed /\ proof.opts \in Accepted(proof.tag)
              IN verdict' = IF ~ok THEN "reject" ELSE IF tamper = "trailing_byte" THEN "any" ELSE "accept"
-          /\ UNCHANGED <<opts, viaBytes, tamper, stmt, claimed, proof>>
+          /\ UNCHANGED <<opts, htag, viaBytes, tamper, stmt, claimed, proof>>
 Next == Execute \/ Prove \/ Transport \/ Tamper \/ Verify
 
-Honest == tamper = "none" /\ opts # "weak"
+Honest == tamper = "none" /\ opts \in Accepted(htag)
 Completeness == (phase = "verified" /\ Honest) => verdict = "accept"
-Binding == (phase = "verified" /\ verdict = "accept") => (tamper = "none" /\ opts \in Accepted(TagOf(opts)))
+Binding == (phase = "verified" /\ verdict = "accept") => (tamper = "none" /\ opts \in Accepted(htag))
 AnyOnlyForTrailing == (phase = "verified" /\ verdict = "any") => tamper = "trailing_byte"
-WeakRejected == (phase = "verified" /\ opts = "weak") => verdict = "reject"
+\* the accepted set of a hash function is exactly the documented one: nothing weaker, nothing labelled for another function
+AcceptedExactly == (phase = "verified" /\ tamper = "none") => (verdict = "accept" <=> opts \in Accepted(htag))
+WeakRejected == (phase = "verified" /\ opts \in {"weak", "q26", "g15", "b4"}) => verdict = "reject"
 =============================================================================
